@@ -142,6 +142,40 @@ def b_iter_position(e, c, a):
     return none()
 
 
+def b_iter_rposition(e, c, a):
+    it, locs = _iter_elems(a[0])
+    for k in range(len(locs) - 1, -1, -1):
+        r = e.call_closure(a[1], [Ref(locs[k])])
+        if e.branch(r):
+            return some(bv(k))
+    return none()
+
+
+def b_iter_rev_find_etc(e, c, a):
+    raise Unsupported("iterator adaptor " + c)
+
+
+def b_opt_is_some_and(e, c, a):
+    v = a[0]
+    if _tag_is(e, v, 1):
+        return e.call_closure(a[1], [v.f[0]])
+    return z3.BoolVal(False)
+
+
+def b_opt_is_none_or(e, c, a):
+    v = a[0]
+    if _tag_is(e, v, 1):
+        return e.call_closure(a[1], [v.f[0]])
+    return z3.BoolVal(True)
+
+
+def b_opt_map_or(e, c, a):
+    v = a[0]
+    if _tag_is(e, v, 1):
+        return e.call_closure(a[2], [v.f[0]])
+    return a[1]
+
+
 def b_iter_next(e, c, a):
     it, locs = _iter_elems(a[0])
     if not locs:
@@ -267,6 +301,10 @@ BUILTINS = [
     (r"^<std::slice::Iter<.*> as Iterator>::all::<", b_iter_all),
     (r"^<std::slice::Iter<.*> as Iterator>::position::<", b_iter_position),
     (r"^<std::slice::Iter<.*> as Iterator>::next$", b_iter_next),
+    (r"^<std::slice::Iter<.*> as Iterator>::rposition::<", b_iter_rposition),
+    (r"^Option::<.*>::is_some_and::<", b_opt_is_some_and),
+    (r"^Option::<.*>::is_none_or::<", b_opt_is_none_or),
+    (r"^Option::<.*>::map_or::<", b_opt_map_or),
     (r"^Option::<.*>::(unwrap|expect)$", b_opt_unwrap),
     (r"^Option::<.*>::map::<", b_opt_map),
     (r"^Option::<.*>::unwrap_or$", b_opt_unwrap_or),
